@@ -10,7 +10,7 @@ from ..report import Ob, PROVED, REFUTED, UNDECIDED, func_where, ASSUMPTIONS, Fa
 from ..model import norm_text, AnalysisError
 from ..units import exc_key
 from .. import seqops
-from . import vbs, common
+from . import vbs, common, readers
 from .vbs import ReaderRuns, reader_reads, concat_all, same_seq, MLIB, direct_framing, NOT_DIRECT
 
 
@@ -84,6 +84,8 @@ def check(prog, res, tier):
                                         f'bytes read of the current record', func_where(nfi), 'binary_context_data=...',
                                chk_b, rule=f'C10.b.{ci.name}.{tag}'))
 
+            seen_lr = {'n': 0, 'absent': 0}
+
             def chk_c(p, mode):
                 if p.outcome != 'return':
                     return []
@@ -99,12 +101,57 @@ def check(prog, res, tier):
                 reads = [r for _e, r, _s in reader_reads(p)]
                 want = concat_all(p.interp, reads)
                 lr = obj.fields.get('last_record')
+                if lr is None or isinstance(lr, ConstV) and lr.value is None:
+                    # a reader that keeps no last_record hands the bytes to its error reports some other way (C10.b decides
+                    # what the reports carry): nothing to compare here
+                    seen_lr['absent'] += mode == 'inv'
+                    return fails
+                seen_lr['n'] += mode == 'inv'
                 if want is None or not same_seq(p, lr, want):
                     fails.append(definite(f'last_record is {lr!r}, bytes read were {want!r}'))
                 return fails
             res.add(runs.judge('C10.c', f'{ci.name}.__next__ ({tag}): a returned record advances the counter exactly once '
                                         f'and last_record == prefix ++ record', func_where(nfi),
                                'self.record_number += 1; self.last_record = ...', chk_c, rule=f'C10.c.{ci.name}.{tag}'))
+
+    # ---- C10.c (iteration protocol): asking the reader for its iterator does not touch the record counter
+    for cq in ('mciipm.VbsReader', 'mciipm.IpmReader'):
+        ci_ = prog.cls(cq)
+        r_ = ci_.lookup('__iter__')
+        if not (r_ and r_[0] == 'method'):
+            continue
+        ifi_ = r_[1]
+
+        def entry_it(it, cq=cq, ifi_=ifi_):
+            kw = {'encoding': vbs.codec(it), 'iso_config': common.generic_bit_config(it)} if cq.endswith('IpmReader') else {}
+            obj, f = readers.make_vbs_reader(it, prog, cq, blocked=None, extra_kwargs=kw)
+            lr = it.sym_bytes('last', lo=5)
+            obj.fields['last_record'] = lr
+            it.user['lr'] = lr
+            return it.call_function(ifi_, [], {}, self_obj=obj)
+        runs_it = Runs(prog, entry_it, res=res)
+
+        def chk_it(p, mode):
+            if p.outcome != 'return':
+                return [definite(f'iter(reader) raises {p.value!r}')] if p.outcome == 'raise' else []
+            obj, k = p.interp.user['reader'], p.interp.user['k']
+            fails = []
+            rn = obj.fields.get('record_number')
+            if not isinstance(rn, IntV):
+                fails.append(soft(f'record_number is {rn!r} after iter(reader)'))
+            else:
+                fails += need_eq0(p.store, rn.lin - k.lin,
+                                  f'iter(reader) on a reader that stands at record k leaves the counter at {p.store.canon(rn.lin)}: a '
+                                  f'second for loop, islice() chunk or a for loop after next() reports the bad record under another number')
+            if obj.fields.get('last_record') is not p.interp.user['lr']:
+                fails.append(definite('iter(reader) changes last_record', firm=True))
+            f = p.interp.user['file']
+            if p.store.decide_eq0(f.pos - p.interp.user['pos0']) is not True:
+                fails.append(definite('iter(reader) moves the file position', firm=True))
+            return fails
+        res.add(runs_it.judge('C10.c', f'{ci_.name}.__iter__: obtaining the iterator changes neither the record counter, last_record nor '
+                                       f'the file position (the numbering continues where the reader stands)', func_where(ifi_),
+                              'def __iter__(self): return self', chk_it, rule=f'C10.c.iter.{ci_.name}'))
 
     # ---- C10.d carrier and report
     cfi = prog.func('CardutilError.__init__')
